@@ -6,6 +6,10 @@ HERE = os.path.dirname(os.path.dirname(os.path.abspath(__file__)))
 TECH = "bounded symbolic execution of the real Go code (go/ssa -> SMT-LIB bit-vectors), z3 decides every assertion/panic/branch; counterexamples replayed natively"
 
 CHECKS = {
+ "C13": dict(
+   text="The real standard.Conn (Peek/peekBuffer/Skip/Release/handleTail/fill/Read/next/ReadByte/ReadBinary/Len, Malloc/WriteBinary/Flush, linkBufferNode) is executed from SSA against a byte-queue model for every operation sequence of length K over the seven reader operations (three writer operations) with sizes in windows around 1, 1 KiB, 4 KiB and 8 KiB and four input fragmentations: bytes observed equal the wire at the model cursor (symbolic bytes at node boundaries), Len equals buffered-minus-consumed, every Peek slice is re-read after each later operation until the next Release, and after Flush the peer holds exactly the concatenation written. mcache/sync.Pool re-issue freed blocks so premature release is visible.",
+   note="K=2 (reader) / 3 (writer) in quick, 3/4 in thorough - far below the property's 60..200; sizes are concrete choices; TLS, ReadFrom, error/EOF paths outside",
+   ref="DESIGN.md §4 C13"),
  "C04": dict(
    text="Handler programs over {9 status codes} x {no body, SetBody, AppendBody x2, SetBodyStream with known length / -1 / LimitedReader, hijacked chunked writer with and without intermediate flush} x {status before/after the body call} x {Connection: close} x {GET, HEAD} (thorough: two in sequence on one connection), with symbolic body bytes, run inside the real Serve loop; the bytes written are decoded by an independent strict response reader and z3 is asked whether status, body bytes, framing or the position where the next response starts can differ from what the handler produced, and whether bodiless responses can carry body bytes or chunked framing.",
    note="bodies <= 3 bytes (flush thresholds not exercised); strict reader is the harness's own decoder; Date/Server headers disabled",
